@@ -80,6 +80,17 @@ class SystemW(Inference):
             # all indices in the last partition
             for index in self.epistemic_state["partition"][-1]:
                 [wcnf.append(c) for c in self.epistemic_state["nf_cnf_dict"][index]]
+            if len(self.epistemic_state["partition"]) == 1:
+                # all conditionals sit in the infinity layer: no feasible world is preferred to
+                # another, so the query holds only if its falsification has no feasible model
+                wcnf_f = wcnf.copy()
+                [wcnf_f.append(c) for c in self.epistemic_state["f_cnf_dict"][0]]
+                optimizer = create_optimizer(self.epistemic_state)
+                return not optimizer.minimal_correction_subsets(
+                    wcnf_f,
+                    ignore=list(self.epistemic_state["partition"][-1]),
+                    deadline=deadline,
+                )
             result = self._rec_inference(
                 wcnf, len(self.epistemic_state["partition"]) - 2, deadline
             )
